@@ -154,28 +154,46 @@ Proof.
 Qed.
 
 Lemma exhaust_loop_spec : forall ev g r p g' r' p',
-  evs g = ev -> NInv g r ->
-  exhaust_loop ev g r p = (g', r', p') ->
-  NInv g' r' /\ p <= p' /\ (all_disc ev = true -> all_disc (evs g') = true).
+  evs g = ev -> NInv g r -> 0 <= r ->
+  exhaust_loop true ev g r p = (g', r', p') ->
+  NInv g' r' /\ r' = 0 /\ p' = p + len (takeZ r (sbody ev)) /\
+  (all_disc ev = true -> all_disc (evs g') = true).
 Proof.
-  induction ev as [|e tl IH]; intros g r p g' r' p' E N H; cbn [exhaust_loop] in H.
+  induction ev as [|e tl IH]; intros g r p g' r' p' E N Hr H; cbn [exhaust_loop] in H.
   - destruct (Z.gtb_spec r 0).
-    + injection H as <- <- <-. cbn [g_recv evs].
-      split; [eapply NInv_recv_nil; eassumption|]. fin.
-    + injection H as <- <- <-. rewrite E. split; [exact N|]. fin.
+    + injection H as <- <- <-. cbn [g_recv evs sbody]. rewrite takeZ_nil.
+      split; [eapply NInv_recv_nil; eassumption|]. change (len (@nil BinNums.N)) with 0. fin.
+    + injection H as <- <- <-. rewrite E, takeZ_nonpos by lia. split; [exact N|].
+      change (len (@nil BinNums.N)) with 0. fin.
   - destruct (Z.gtb_spec r 0).
     + destruct e as [b more|].
-      * pose proof (len_nonneg (obody b)) as Lb.
-        assert (N1 : NInv (g_recv g (Req b more) tl) (if more then r - len (obody b) else 0)).
+      * pose proof (len_nonneg (obody b)) as Lb. cbn [andb] in H.
+        set (n0 := len (obody b)) in *.
+        set (n := if n0 >? r then r else n0) in *.
+        assert (Hn : 0 <= n <= r /\ n = len (takeZ r (obody b))).
+        { unfold n. rewrite len_takeZ. fold n0. destruct (Z.gtb_spec n0 r); lia. }
+        assert (N1 : NInv (g_recv g (Req b more) tl) (if more then r - n else 0)).
         { eapply NInv_recv; try eassumption; cbn [is_disc ev_body]; [discriminate|].
-          destruct more; [right; lia | left; lia]. }
-        destruct (IH _ _ _ _ _ _ (eq_refl : evs (g_recv g _ tl) = tl) N1 H) as (I1 & I2 & I3).
-        split; [exact I1|]. split; [lia|]. intro AD. apply I3. eapply all_disc_tail. exact AD.
+          destruct more; [|left; lia].
+          unfold n. fold n0. destruct (Z.gtb_spec n0 r); [left; lia | right; lia]. }
+        assert (Hr1 : 0 <= (if more then r - n else 0)) by (destruct more; lia).
+        destruct (IH _ _ _ _ _ _ (eq_refl : evs (g_recv g _ tl) = tl) N1 Hr1 H) as (I1 & I2 & I3 & I4).
+        split; [exact I1|]. split; [exact I2|]. split; [|intro AD; apply I4; eapply all_disc_tail; exact AD].
+        rewrite I3. cbn [sbody]. rewrite takeZ_app, len_app. fold n0.
+        destruct Hn as (Hn1 & Hn2). rewrite <- Hn2.
+        assert (len (takeZ (if more then r - n else 0) (sbody tl)) =
+                len (takeZ (r - n0) (if more then sbody tl else []))); [|lia].
+        destruct more.
+        -- unfold n. destruct (Z.gtb_spec n0 r); [|reflexivity].
+           rewrite !takeZ_nonpos by lia. reflexivity.
+        -- rewrite takeZ_nil, takeZ_nonpos by lia. reflexivity.
       * assert (N1 : NInv (g_recv g Disc tl) 0).
         { eapply NInv_recv; try eassumption; cbn [is_disc ev_body]; [lia | left; lia]. }
-        destruct (IH _ _ _ _ _ _ (eq_refl : evs (g_recv g _ tl) = tl) N1 H) as (I1 & I2 & I3).
-        split; [exact I1|]. split; [lia|]. intro AD. apply I3. eapply all_disc_tail. exact AD.
-    + injection H as <- <- <-. rewrite E. split; [exact N|]. fin.
+        destruct (IH _ _ _ _ _ _ (eq_refl : evs (g_recv g _ tl) = tl) N1 ltac:(lia) H) as (I1 & I2 & I3 & I4).
+        split; [exact I1|]. split; [exact I2|]. split; [|intro AD; apply I4; eapply all_disc_tail; exact AD].
+        rewrite I3. cbn [sbody]. rewrite takeZ_nil, takeZ_nonpos by lia. reflexivity.
+    + injection H as <- <- <-. rewrite E, takeZ_nonpos by lia. split; [exact N|].
+      change (len (@nil BinNums.N)) with 0. fin.
 Qed.
 
 Lemma iter_loop_spec : forall ev g r p y g' r' p',
